@@ -52,7 +52,7 @@ theorem anyJA_map_act (l : List Action) : anyJA (l.map Instr.act) = true → Act
 def NoWait (s : State) : Prop := ∀ t, t ≠ 0 → anyJA (s.th t).code = false ∧ (s.th t).waiting = false
 
 theorem otherRel_waiting {s : State} {k : Nat} {a b : Th} (h : OtherRel s k a b) : b.waiting = a.waiting ∨ b.waiting = false := by
-  rcases h with rfl | rfl | ⟨_, _, rfl⟩ | ⟨_, rfl⟩ <;> simp
+  rcases h with rfl | rfl | ⟨_, _, _, rfl⟩ | ⟨_, rfl⟩ <;> simp
 
 theorem noWait_thr (P : Prog) (hja : ∀ k, k ≠ 0 → Action.joinAll ∉ P.body k) (s s' : State) (t : Nat)
     (h : step P s t = some s') (hi : NoWait s) (hw : ∀ k, (s.th k).status = .created → (s.th k).wFunc = k) :
